@@ -147,7 +147,7 @@ func VH_C18_odometer(views int, L int) {
 }
 
 // C18(c): every generated partition scenario is well formed.
-func VH_C18_partitions(numNodes int, numTwins int, k int) {
+func VH_C18_partitions(numNodes int, numTwins int, k int, views int) {
 	nodes, twins := assignNodeIDs(uint8(numNodes), uint8(numTwins))
 	all := append(append([]NodeID(nil), twins...), nodes...)
 	scen := genPartitionScenarios(twins, nodes, uint8(k), 1)
@@ -181,7 +181,7 @@ func VH_C18_partitions(numNodes int, numTwins int, k int) {
 		}
 	}
 	// the leaders offered by the generator are configured non-twin replicas
-	g := NewGenerator(vhLog(), Settings{NumNodes: uint8(numNodes), NumTwins: uint8(numTwins), Partitions: uint8(k), Views: 2})
+	g := NewGenerator(vhLog(), Settings{NumNodes: uint8(numNodes), NumTwins: uint8(numTwins), Partitions: uint8(k), Views: uint8(views)})
 	vassert(len(g.leadersPartitions) == len(scen)*len(nodes), "one-entry-per-scenario-and-leader")
 	for _, lp := range g.leadersPartitions {
 		isNode := false
@@ -192,7 +192,11 @@ func VH_C18_partitions(numNodes int, numTwins int, k int) {
 		}
 		vassert(isNode, "leader-is-a-configured-replica")
 	}
-	vassert(g.Remaining() == int64(len(g.leadersPartitions)*len(g.leadersPartitions)), "announced-count-is-L-to-the-views")
+	want := int64(1)
+	for i := 0; i < views; i++ {
+		want *= int64(len(g.leadersPartitions))
+	}
+	vassert(g.Remaining() == want, "announced-count-is-L-to-the-views")
 }
 
 func vhLog() logging.Logger { return logging.VNop() }
